@@ -22,6 +22,13 @@ var (
 	double int
 )
 
+// ResetStats zeroes the counters.
+func ResetStats() {
+	statMu.Lock()
+	puts, reuses, double = 0, 0, 0
+	statMu.Unlock()
+}
+
 // Stats returns the number of Puts, of Gets served from the free list, and of
 // buffers put back while already on the free list.
 func Stats() (int, int, int) {
@@ -57,11 +64,12 @@ func (p *Pool) Put(x any) {
 		p.mu.Lock()
 		for _, y := range p.free {
 			if c, ok := y.([]byte); ok && cap(c) > 0 && cap(b) > 0 && &c[:1][0] == &b[:1][0] {
-				p.mu.Unlock()
+				// released twice: it is counted (a harness reports it) and, as a
+				// real pool would, handed out twice from now on
 				statMu.Lock()
 				double++
 				statMu.Unlock()
-				return
+				break
 			}
 		}
 		p.mu.Unlock()
